@@ -54,6 +54,30 @@ def c03_buffers(rng, kind, thorough):
             for v in (0, 1, 2, 3, 255): out.append(with_len(p, 29, 1, v))
     return out
 
+def c03_big_buffers(rng, thorough):
+    """capture-module / interface status payloads LONGER than 65535 bytes whose chain of inner length fields crosses offset 65536 at a
+    field step (16-bit offset arithmetic would wrap there), with the final length field consistent / one too large / 0xFFFF"""
+    out = []
+    def cm(l1, l2, l3, l4, vlen_field, vbytes):
+        b = bytearray(26)
+        for L in (l1, l2, l3, l4):
+            b += be(L, 2) + bytes(L)
+        b += be(vlen_field, 2) + bytes(vbytes)
+        return bytes(b)
+    combos = [(65500, 100), (65534, 2), (40000, 30000), (65508, 0), (65506, 2), (32768, 32768)] if thorough else [(65500, 100), (65534, 2), (40000, 30000)]
+    for (l1, l2) in combos:
+        for (vf, vb) in ((4364, 4364), (0xFFFF, 4364), (4365, 4364), (0, 0), (1, 0)):
+            out.append((49, cm(l1, l2, 0, 0, vf, vb)))
+        out.append((49, cm(l1, l2, 0xFFFF, 0, 0, 0)))
+        out.append((49, cm(l1, l2, 10, 0xFFF0, 0, 100)))
+    def iface(c, vlen_field, vbytes):
+        b = bytearray(36) + be(c, 2) + bytes(c + c % 2) + be(vlen_field, 2) + bytes(vbytes)
+        return bytes(b)
+    for c in ([65498, 65499, 65500, 65534, 65535] if thorough else [65499, 65535]):
+        for (vf, vb) in ((100, 100), (101, 100), (0xFFFF, 100), (0, 0)):
+            out.append((50, iface(c, vf, vb)))
+    return out
+
 def judge_c03(case, lines):
     an = anomalies(lines)
     if an:
@@ -90,6 +114,8 @@ def run_c03(res, rng):
     for kind in KINDS:
         for b in c03_buffers(rng.fork('k%d' % kind), kind, thorough):
             cases.append(Case('v%d' % i, ['VIEW %d %s' % (kind, hx(b))], dict(kind=kind, size=len(b)))); i += 1
+    for kind, b in c03_big_buffers(rng.fork('big'), thorough):
+        cases.append(Case('v%d' % i, ['VIEW %d %s' % (kind, hx(b))], dict(kind=kind, size=len(b)))); i += 1
     for j in range(60000 if thorough else 1500):
         r = rng.fork('r%d' % j)
         kind = r.choice(KINDS)
@@ -109,7 +135,7 @@ def run_c03(res, rng):
     def proj(c, lines):
         return [l for l in lines if l.startswith(('V ', 'W', 'K '))] + anomalies(lines)
     impl, model = correspondence(res, cases, proj, judge_c03, 'validated payloads in bounds')
-    res.cov['rule'] = ('per typed class: every length 0..header+8 as zeros / 0xFF / random, random consistent and inconsistent payloads, each inner length field set to 0, fits-1, fits, fits+1, max; message-level buffers through isValidPacket + Packet(); '
+    res.cov['rule'] = ('per typed class: every length 0..header+8 as zeros / 0xFF / random, random consistent and inconsistent payloads, each inner length field set to 0, fits-1, fits, fits+1, max; capture-module / interface status payloads of 65.6-131 KB whose length-field chain crosses offset 65536; message-level buffers through isValidPacket + Packet(); '
                        'exact-size heap copies under ASan; judge: accepted => every (offset,length) view inside the payload. non-trivial = distinct buffers accepted by their validator (counted from the implementation transcript)')
     res.cov['samples'] = [sample_case(c) for c in cases[:3]]
     count_accepted(res, impl, cases)
@@ -174,6 +200,25 @@ def rand_data(rng, kind, thorough=False):
     if kind == 50:
         return [rng.bytes(rng.choice([0, 1, 2, 3, 4, 9, 30])), rng.bytes(rng.choice([0, 0, 1, 2, 7]))]
 
+def related(rng, kind, final):
+    """prior content that differs from the final one by a single small edit: one element one byte longer / shorter, last byte
+    changed, or identical"""
+    def edit(b):
+        k = rng.below(5)
+        if k == 0: return b + bytes([rng.choice([0x41, 0x30, 1, 0xFF])])
+        if k == 1 and b: return b[:-1]
+        if k == 2 and b: return b[:-1] + bytes([(b[-1] ^ 1) or 1])
+        if k == 3: return b + bytes([0x31, 0x32])
+        return b
+    if isinstance(final, list):
+        out = list(final)
+        j = rng.below(len(out))
+        out[j] = edit(out[j])
+        if kind == 49 and j < 4:
+            out[j] = out[j].replace(b'\0', b'q')
+        return out
+    return edit(final)[:255] if kind in (1, 2, 3) else edit(final)
+
 def odata(slot, kind, data):
     if kind == 49:
         return 'ODATA %d %s' % (slot, ' '.join(hx(x) for x in data))
@@ -204,6 +249,8 @@ def gen_c13(rng, cid, kind, data=None, thorough=False):
         lines.append('OSET 1 %d %d' % (f, v))
     if rng.chance(1, 2):
         lines.append(odata(1, kind, rand_data(rng, kind)))
+    if rng.chance(1, 2):
+        lines.append(odata(1, kind, related(rng, kind, final)))
     lines.append(odata(1, kind, final))
     lines += ['OSHOW 1', 'OFRAME 1 1']
     # object 2: fresh object, same header fields, same final data
@@ -356,7 +403,7 @@ def gen_c14(rng, cid, npool=6, nops=14):
     state = {i: p for i, p in enumerate(pool)}
     exp = []  # expected observations
     for _ in range(nops):
-        op = rng.choice(['XCOPY', 'XMOVE', 'XASG', 'XMASG', 'XEQ', 'XEQ', 'XMUTCOPY', 'XSELF'])
+        op = rng.choice(['XCOPY', 'XMOVE', 'XASG', 'XMASG', 'XEQ', 'XEQ', 'XMUTCOPY', 'XSELF', 'XTYPE'])
         a, b = rng.below(npool), rng.below(npool)
         if op == 'XEQ':
             lines.append('XEQ %d %d' % (a, b)); lines.append('XEQ %d %d' % (b, a)); lines.append('XEQ %d %d' % (a, a))
@@ -379,6 +426,14 @@ def gen_c14(rng, cid, npool=6, nops=14):
             lines += ['XMASG %d %d' % (a, b), 'XSHOW %d' % a]
             old = state[a]; state[a] = state[b]; state[b] = old
             exp.append(('show', state[a]))
+        elif op == 'XTYPE':
+            # retag the payload through its public setters (bytes stay): also to not-valid types, which constructors would zero-fill
+            if state[a] is None or state[a].get('nopl'):
+                continue
+            mt, raw = rng.choice([(0, 0), (0, 0), (0, 7), (1, 0), (3, 1), (1, 1), (255, 255), (2, 9)])
+            lines += ['XTYPE %d %d %d' % (a, mt, raw), 'XSHOW %d' % a]
+            q = dict(state[a]); q['mt'] = mt; q['pt'] = raw
+            state[a] = q; exp.append(('show', q))
         elif op == 'XMUTCOPY':
             # a copy shares no state with its original: mutate the copy, re-read the original
             if state[b] is None or a == b:
@@ -512,6 +567,72 @@ def gen_c15(rng, cid):
         exp = []
     return Case(cid, [D.feed_line(1, f)], dict(frames=[f], exp=exp))
 
+def c15_siblings(rng, cid):
+    """three to five TECMP messages decoded back to back in ONE case that differ from each other in a single field (same serial /
+    other hardware version, same entry / other counter, ...): the conversion must be a function of the buffer alone"""
+    dev, ifid, ts = rng.below(256), rng.next() & 0xFFFFFFFF, rng.next()
+    kind = rng.choice(['cm', 'cm', 'bus', 'can', 'lin'])
+    frames, exps = [], []
+    if kind == 'cm':
+        serial = rng.choice([0, 1, 23140065, rng.next() & 0xFFFFFFFF])
+        sw = [rng.below(256) for _ in range(3)]; hw = [rng.below(256) for _ in range(2)]
+        head = bytes([rng.below(256), rng.below(256), rng.below(256), 0]) + be(rng.below(65536), 2) + be(rng.below(65536), 2)
+        tail = rng.bytes(18)
+        for _ in range(rng.range(3, 5)):
+            f = rng.choice(['hw0', 'hw1', 'sw', 'serial', 'none', 'dev', 'ts'])
+            if f == 'hw0': hw = [(hw[0] + rng.range(1, 255)) & 255, hw[1]]
+            elif f == 'hw1': hw = [hw[0], (hw[1] + rng.range(1, 255)) & 255]
+            elif f == 'sw': sw = list(sw); sw[rng.below(3)] ^= 1 << rng.below(8)
+            elif f == 'serial': serial ^= 1 << rng.below(32)
+            elif f == 'dev': dev = (dev + 1) & 255
+            elif f == 'ts': ts = (ts + 1) % 2 ** 64
+            pl = head + be(serial, 4) + bytes([0] + sw + hw) + tail
+            frames.append(tecmp_hdr(dev, 1, 0, len(pl), ifid=ifid, ts=ts) + pl)
+            exps.append([dict(kind='cm', serial=str(serial).encode(), hw=('v%d.%d' % tuple(hw)).encode(), sw=('v%d.%d.%d' % tuple(sw)).encode(), dev=dev, ts=ts, ifid=ifid)])
+    elif kind == 'bus':
+        n = rng.choice([1, 2, 3])
+        ents = [[rng.next() & 0xFFFFFFFF, rng.next() & 0xFFFFFFFF, rng.next() & 0xFFFFFFFF] for _ in range(n)]
+        head = rng.bytes(12)
+        for _ in range(rng.range(3, 5)):
+            ents = [list(e) for e in ents]
+            ents[rng.below(n)][rng.below(3)] ^= 1 << rng.below(32)
+            pl = head + b''.join(be(a, 4) + be(b, 4) + be(c, 4) for a, b, c in ents)
+            frames.append(tecmp_hdr(dev, 2, 0, len(pl), ifid=ifid, ts=ts) + pl)
+            exps.append([dict(kind='bus', ifid=a, total=b, errors=c, dev=dev, ts=ts) for a, b, c in ents])
+    elif kind == 'can':
+        dlc = rng.choice([1, 7, 8]); arb = rng.next() & 0xFFFFFFFF; data = bytearray(rng.bytes(dlc)); crc = rng.bytes(3)
+        for _ in range(rng.range(3, 5)):
+            if rng.chance(1, 2): data[rng.below(dlc)] ^= 1 << rng.below(8)
+            else: arb ^= 1 << rng.below(29)
+            pl = be(arb, 4) + bytes([dlc]) + bytes(data) + crc
+            frames.append(tecmp_hdr(dev, 3, 2, len(pl), ifid=ifid, ts=ts) + pl)
+            exps.append([dict(kind='can', arb=arb & 0x1FFFFFFF, data=bytes(data), dev=dev, ts=ts, ifid=ifid)])
+    else:
+        n = rng.choice([1, 2, 8]); data = bytearray(rng.bytes(n)); pid = rng.below(256); cs = rng.below(256)
+        for _ in range(rng.range(3, 5)):
+            k = rng.below(3)
+            if k == 0: data[rng.below(n)] ^= 1 << rng.below(8)
+            elif k == 1: pid ^= 1 << rng.below(6)
+            else: cs ^= 1 << rng.below(8)
+            pl = bytes([pid, n]) + bytes(data) + bytes([cs])
+            frames.append(tecmp_hdr(dev, 3, 4, len(pl), ifid=ifid, ts=ts) + pl)
+            exps.append([dict(kind='lin', id=pid & 0x3F, data=bytes(data), checksum=cs, dev=dev, ts=ts, ifid=ifid)])
+    return Case(cid, [D.feed_line(1, f) for f in frames], dict(frames=frames, exps=exps))
+
+def judge_c15_seq(case, lines):
+    an = anomalies(lines)
+    if an:
+        return an[0]
+    calls = D.calls_of(lines)
+    if len(calls) != len(case.meta['frames']):
+        return 'transcript has %d decode calls, script %d' % (len(calls), len(case.meta['frames']))
+    for i, ((n, ks, _), exp) in enumerate(zip(calls, case.meta['exps'])):
+        sub = Case(case.cid, [], dict(exp=exp))
+        r = judge_c15(sub, ['K ' + ' '.join(map(str, k[0])) + ' x' + k[1].hex() for k in ks])
+        if r:
+            return 'message %d of the sequence: %s' % (i, r)
+    return None
+
 def judge_c15(case, lines):
     an = anomalies(lines)
     if an:
@@ -557,7 +678,10 @@ def run_c15(res, rng):
         fr = sw[j:j + 200]
         c = Case('sweep%d' % j, [D.feed_line(1, f) for f in fr], dict(frames=fr, exp=[]))
         cases.append(c)
+    cases += [c15_siblings(rng.fork('sib%d' % i), 'sib%d' % i) for i in range(400 if res.tier == 'quick' else 20000)]
     def judge(c, lines):
+        if c.cid.startswith('sib'):
+            return judge_c15_seq(c, lines)
         if c.cid.startswith('sweep'):
             an = anomalies(lines)
             if an: return an[0]
@@ -565,7 +689,7 @@ def run_c15(res, rng):
             return None
         return judge_c15(c, lines)
     correspondence(res, cases, (lambda c, l: [x if x.startswith('K ') else 'N ' + x.split()[1] for x in l if x.startswith(('N ', 'K '))] + anomalies(l)), judge, 'TECMP conversion')
-    res.cov['rule'] = 'TECMP frames from the table serialiser: CAN (dlc 0-8), CAN-FD (dlc 9-64), LIN (0-20 bytes), capture-module status (random serial / versions), bus status (0-40 entries), unsupported message/data types, inner lengths that do not fit, announced payload longer than the buffer, trailing bytes; plus a sweep of all 256 message types x 17 (quick) / 303 (thorough) data types; judge = Python conversion spec. non-trivial = distinct frames of supported kinds'
+    res.cov['rule'] = 'TECMP frames from the table serialiser: CAN (dlc 0-8), CAN-FD (dlc 9-64), LIN (0-20 bytes), capture-module status (random serial / versions), bus status (0-40 entries), unsupported message/data types, inner lengths that do not fit, announced payload longer than the buffer, trailing bytes; sequences of 3-5 messages decoded back to back that differ from each other in one field (same serial / other hardware version, one counter, one data byte); plus a sweep of all 256 message types x 17 (quick) / 303 (thorough) data types; judge = Python conversion spec. non-trivial = distinct frames of supported kinds'
     res.cov['distinct_nontrivial'] = len(set(tuple(c.lines) for c in cases if c.meta.get('exp')))
     res.cov['samples'] = [sample_case(c) for c in cases[:3]]
 
@@ -585,12 +709,29 @@ def gen_c16(rng, cid, nops, devs=(1, 2, 3), ifs=(10, 20, 30)):
     exp = []
     slot = 0
     probes = list(devs) + list(ifs) + [99]
+    last = {}
     for _ in range(nops):
         k = rng.below(12)
         d = rng.choice(devs); i = rng.choice(ifs)
         if k < 7:
             kind = rng.choice(['cm', 'cm', 'if', 'if', 'if', 'data'])
-            p = st_packet(rng, kind, d, i)
+            key = (kind, d, i if kind != 'cm' else 0)
+            if key in last and rng.chance(2, 5):
+                # the same message again with the SAME payload and only header fields changed (an idle interface whose flags /
+                # vendor id / timestamp move), or with one payload byte changed
+                p = dict(last[key])
+                for f in rng.choice([['flags'], ['vendor'], ['flags', 'vendor'], ['ts'], ['stream'], ['ver'], ['payload'], ['flags', 'ts']]):
+                    if f == 'flags': p['flags'] = rng.choice([0, 1, 2, 3, 0x10, 0x20, 0x80, 0xB3, rng.below(256) & 0xB3])
+                    elif f == 'vendor': p['vendor'] = rng.below(65536)
+                    elif f == 'ts': p['ts'] = rng.next()
+                    elif f == 'stream': p['stream'] = rng.below(256)
+                    elif f == 'ver': p['ver'] = rng.range(1, 255)
+                    else:
+                        b = bytearray(p['payload']); q = (rng.below(8) if kind == 'cm' else 4 + rng.below(8)) if kind != 'data' else len(b) - 1; b[q] ^= 1 << rng.below(8); p['payload'] = bytes(b)
+            else:
+                p = st_packet(rng, kind, d, i)
+                p['flags'] = rng.choice([0, 0, 1, 2, 0x80, rng.below(256) & 0xB3])
+            last[key] = p
             lines.append(pk_line(slot, p)); lines.append('SUPD %d' % slot); slot += 1
             if d in spec:
                 if kind == 'cm': spec[d][0] = p
